@@ -83,6 +83,37 @@ def contracts():
     return cs
 
 
+def analysis_pipeline_contract():
+    """analyze_and_overwrite_pages (used by the C17 check): when the override files contain templates they are written
+    BEFORE the analysis, which then runs unconditionally; otherwise the analysis runs unless the table has been
+    analysed already; at most one analysis, with the caller's classifier; the overrides are always written (once)"""
+    HAS_T = "overwrite_folders is not None and call_result('overwrite_pages', 0)"
+    return Contract(
+        target="dumpparser:analyze_and_overwrite_pages", prop="C17", mode="frame",
+        params={"wtp": "ctx", "overwrite_folders": "opq", "skip_extract_dump": "bool", "analyze_template_func": "opq"},
+        track_log=True, log_names=["overwrite_pages", "analyze_templates", "has_analyzed_templates"],
+        asserts={"wtp.analyze_templates(analyze_template_func)": [
+            f"implies({HAS_T}, logged('overwrite_pages') == 2)"]},
+        ensures=["logged('analyze_templates') <= 1",
+                 "implies(analyze_template_func is None, logged('analyze_templates') == 0)",
+                 f"implies(analyze_template_func is not None and ({HAS_T}), logged('analyze_templates') == 1)",
+                 f"implies(analyze_template_func is not None and not ({HAS_T}), logged('has_analyzed_templates') == 1 and "
+                 "logged('analyze_templates') == (0 if call_result('has_analyzed_templates', 0) else 1))",
+                 "implies(logged('analyze_templates') == 1, same_object(call_arg('analyze_templates', 0, 0), analyze_template_func))",
+                 "implies(overwrite_folders is None, logged('overwrite_pages') == 0)",
+                 "implies(overwrite_folders is not None, logged('overwrite_pages') == 2 and "
+                 "call_arg('overwrite_pages', 0, 1) == False and call_arg('overwrite_pages', 1, 1) == True and "
+                 "same_object(call_arg('overwrite_pages', 1, 0), overwrite_folders))"])
+
+
+def pipeline_registry(reg):
+    setup_registry(reg)
+    reg.add(Contract(target="dumpparser:overwrite_pages", variant="callee", prop="C17", mode="value", result="bool", raises=[]))
+    reg.add(Contract(target="core:Wtp.has_analyzed_templates", variant="callee", prop="C17", mode="value", result="bool", raises=[]))
+    reg.add(Contract(target="core:Wtp.analyze_templates", variant="callee", prop="C17", mode="value", result="none", raises=[]))
+    reg.add(Contract(target="core:Wtp.backup_db", variant="callee", prop="C17", mode="value", result="none", raises=[]))
+
+
 COMMENT = r"(?s)<!--.*?-->"
 NOINC = r"(?is)<noinclude\s*>.*?</noinclude\s*>"
 NOINC_OPEN = r"(?is)<noinclude\s*>.*"
